@@ -172,7 +172,7 @@ def c13(tier, seed):
     batches.append(Batch("flags-nofault", exe3, "C13", "nofault", seed + 4, 4000 if xq else 10**8, 60 if xq else 120, W, samples=False).run())
     violations, known, nondet = handle_candidates("C13", batches)
     rule = ("plan = seeded history of 1-200 ops {SET_RFC, SET_TLD, SET_ALLOW, SETUP, IS_EMAIL, ERRSTR, READ_RESULT, FREE_INIT} over 1-3 eav_t "
-            "objects and a per-plan address pool (swarm: op mix, pool size, fault rate drawn per plan), plus the complete enumeration of all op sequences up to length 4 (thorough: 5) "
+            "objects and a per-plan address pool (swarm: op mix, pool size, caller-buffer mode, and - in fault batches - a per-plan 'world' in which a drawn share of the pool addresses never converts: fixed code and buffer behaviour per address), one address in five structurally mutated, plus the complete enumeration of all op sequences up to length 4 (thorough: 5) "
             "over a 21-symbol alphabet and a 6-address pool on one object; distinct = distinct hash of (ops, nobj); "
             "non-trivial = executed >=1 state-changing op AND >=1 reused-vs-fresh outcome comparison (AND >=1 fired IDN fault in fault batches)")
     assumptions = ["sampling, not proof: a clean batch is evidence only",
